@@ -69,15 +69,16 @@ type Exec struct {
 	capture **model.Bucket
 
 	// knobs
-	AllowInvalidMeta bool // a failed commit may have left a torn meta record in the slot it was writing
-	BackupEvery      int  // >0: every n-th commit is also copied with WriteTo and the copy decoded
-	FileChecks       bool // decode the file and run Tx.Check after every commit / reopen
-	TolerateErr      bool // an I/O fault is being injected: Commit may fail
-	DeepCursor       bool // dump also walks backwards
-	LastCommitOK     bool
-	LastErr          error
-	LastDec          *dec.Result
-	LastShape        dec.Shape
+	RollbackAfterFailedCommit bool // emulate `defer tx.Rollback()` after a Commit that returned an error
+	AllowInvalidMeta          bool // a failed commit may have left a torn meta record in the slot it was writing
+	BackupEvery               int  // >0: every n-th commit is also copied with WriteTo and the copy decoded
+	FileChecks                bool // decode the file and run Tx.Check after every commit / reopen
+	TolerateErr               bool // an I/O fault is being injected: Commit may fail
+	DeepCursor                bool // dump also walks backwards
+	LastCommitOK              bool
+	LastErr                   error
+	LastDec                   *dec.Result
+	LastShape                 dec.Shape
 
 	// observers
 	OnBegin    func(txid int)
@@ -956,6 +957,12 @@ func (e *Exec) RunTx(t *Txn) {
 				committed = true
 			case e.TolerateErr:
 				e.LastErr = err
+				if e.RollbackAfterFailedCommit {
+					// the usual idiom (`defer tx.Rollback()`): harmless after a failed Commit
+					if rerr := tx.Rollback(); rerr == nil {
+						e.Probes["rollback-after-failed-commit-found-tx-open"]++
+					}
+				}
 			default:
 				e.fail("C04", "unexpected-error", "Commit returned %v", err)
 			}
